@@ -513,6 +513,10 @@ impl<'a> Eval<'a> {
         if c == "true" {
             return Ok(String::new());
         }
+        // the shell kills itself: no exit code at all, still a failed command
+        if c == "kill -KILL $$" || c.ends_with("; kill -KILL $$") {
+            return Err(ErrKind::Command);
+        }
         if c == "false" {
             return Err(ErrKind::Command);
         }
